@@ -500,11 +500,12 @@ variable {specRest bodyObj path : Obj} {x s : String} {opts body vs : List Obj}
 
 /-- `with-open-file`: path and options are evaluated first (left to right); the stream is opened, bound to the
 variable in a frame of its own, and CLOSED when the body is left — whatever the outcome of the body is (normal
-return, return-from, go, error) -/
+return, return-from, go, error) and whatever the body did to the stream (σ2 is arbitrary: the stream may have been
+closed by the body already, or opened with `:direction :probe`): the final close never changes the outcome -/
 theorem stream_closed_on_every_path (hb : listOf bodyObj = some body) (hs : listOf specRest = some (path :: opts))
     (ha : evalN n (.args ρ (path :: opts)) σ = (.val (.str s :: vs), σ1))
     (hbody : evalN n (.seq (pushFrame ρ σ1.frames.length) body)
-      (addFrame (addStream σ1) [(x, .stream σ1.streams.length)]) = (o, σ2)) (hne : o ≠ .timeout) :
+      (addFrame (addStream σ1 (!probeDirection vs)) [(x, .stream σ1.streams.length)]) = (o, σ2)) (hne : o ≠ .timeout) :
     evalN (n + 1) (.form ρ (.cons (.sym "with-open-file") (.cons (.cons (.sym x) specRest) bodyObj))) σ
       = (o, closeStream σ2 σ1.streams.length) := by
   simp [evalN, step, stepEval, listOf, hb, hs, stepForm, formOf, ha, bindV, hbody, andThen_of_ne _ hne]
@@ -519,9 +520,51 @@ theorem stream_open_in_body (σ : St) (fr : List (String × Obj)) :
     (addFrame (addStream σ) fr).streams[σ.streams.length]? = some true := by
   simp [addFrame, addStream]
 
-theorem stream_closed_after (σ : St) (id : Nat) (h : id < σ.streams.length) :
-    (closeStream σ id).streams[id]? = some false := by
-  simp [closeStream, h]
+/-- a stream opened with `:direction :probe` is bound closed -/
+theorem probe_stream_closed_in_body (σ : St) (fr : List (String × Obj)) (ovs : List Obj)
+    (h : probeDirection ovs = true) :
+    (addFrame (addStream σ (!probeDirection ovs)) fr).streams[σ.streams.length]? = some false := by
+  simp [addFrame, addStream, h]
+
+/-- `(close s)` on an open stream: value t, that stream is closed, nothing else changes -/
+theorem close_open_stream (σ : St) (id : Nat) (h : σ.streams[id]? = some true) :
+    applyPrim .close [.stream id] σ = (.val [.t], closeStream σ id) := by
+  simp [applyPrim, h]
+
+/-- `(close s)` on a closed stream is a no-op (value nil): it is NOT an error -/
+theorem close_closed_stream_noop (σ : St) (id : Nat) (h : σ.streams[id]? = some false) :
+    applyPrim .close [.stream id] σ = (.val [.nil], σ) := by
+  simp [applyPrim, h]
+
+/-- closing twice is closing once: the close that `with-open-file` performs after a body that closed the stream
+itself leaves the store of the body -/
+theorem closeStream_idem (σ : St) (id : Nat) : closeStream (closeStream σ id) id = closeStream σ id := by
+  simp [closeStream]
+
+theorem set_false_of_closed (l : List Bool) (id : Nat) (h : l[id]? = some false) : l.set id false = l := by
+  apply List.ext_getElem?
+  intro k
+  by_cases hk : id = k
+  · subst hk
+    rw [List.getElem?_set_self (by
+      rcases Nat.lt_or_ge id l.length with h' | h'
+      · exact h'
+      · simp [List.getElem?_eq_none h'] at h), h]
+  · rw [List.getElem?_set_ne hk]
+
+/-- closing a stream that is closed already gives the very same store: the close that with-open-file performs after
+a body that closed the stream itself (or after a `:direction :probe` open) changes NOTHING -/
+theorem closeStream_of_closed (σ : St) (id : Nat) (h : σ.streams[id]? = some false) : closeStream σ id = σ := by
+  simp [closeStream, set_false_of_closed _ _ h]
+
+/-- with-open-file around a body that left its stream closed: outcome AND store of the form are those of the body -/
+theorem with_open_file_after_body_close (hb : listOf bodyObj = some body) (hs : listOf specRest = some (path :: opts))
+    (ha : evalN n (.args ρ (path :: opts)) σ = (.val (.str s :: vs), σ1))
+    (hbody : evalN n (.seq (pushFrame ρ σ1.frames.length) body)
+      (addFrame (addStream σ1 (!probeDirection vs)) [(x, .stream σ1.streams.length)]) = (o, σ2)) (hne : o ≠ .timeout)
+    (hclosed : σ2.streams[σ1.streams.length]? = some false) :
+    evalN (n + 1) (.form ρ (.cons (.sym "with-open-file") (.cons (.cons (.sym x) specRest) bodyObj))) σ = (o, σ2) := by
+  rw [stream_closed_on_every_path hb hs ha hbody hne, closeStream_of_closed _ _ hclosed]
 
 /-- closing one stream leaves every other stream as it was -/
 theorem close_touches_one_stream (σ : St) (id k : Nat) (h : k ≠ id) :
@@ -533,6 +576,23 @@ example : (evalN 10 (.form {} (.cons (.sym "with-open-file") (ofList [ofList [.s
       .cons (.sym "vtr") (ofList [.cons (.sym "vopen") (ofList [.sym "s"])]),
       .cons (.sym "car") (ofList [.int 5])]))) {}) =
     (.err "type-error", { frames := [[("s", .stream 0)]], streams := [false], trace := [.t] }) := by decide +kernel
+
+/-- the body closes the stream itself and then divides by zero: the error keeps its class (the close at the end of
+with-open-file finds a closed stream and changes nothing); trace: t (first close), nil (second close), nil (vopen) -/
+example : (evalN 10 (.form {} (.cons (.sym "with-open-file") (ofList [ofList [.sym "s", .str "/dev/null"],
+      .cons (.sym "vtr") (ofList [.cons (.sym "close") (ofList [.sym "s"])]),
+      .cons (.sym "vtr") (ofList [.cons (.sym "close") (ofList [.sym "s"])]),
+      .cons (.sym "vtr") (ofList [.cons (.sym "vopen") (ofList [.sym "s"])]),
+      .cons (.sym "/") (ofList [.int 1, .int 0])]))) {}) =
+    (.err "division-by-zero", { frames := [[("s", .stream 0)]], streams := [false], trace := [.t, .nil, .nil] }) := by
+  decide +kernel
+
+/-- a `:direction :probe` stream is closed in the body already; an error of the body keeps its class -/
+example : (evalN 10 (.form {} (.cons (.sym "with-open-file") (ofList [ofList [.sym "s", .str "/dev/null",
+        .sym ":direction", .sym ":probe"],
+      .cons (.sym "vtr") (ofList [.cons (.sym "vopen") (ofList [.sym "s"])]),
+      .cons (.sym "car") (ofList [.int 5])]))) {}) =
+    (.err "type-error", { frames := [[("s", .stream 0)]], streams := [false], trace := [.nil] }) := by decide +kernel
 
 end streams
 
